@@ -8,6 +8,7 @@ import ledger
 import proto
 import send
 import fn
+import simple
 from common import Outcome, log, run_tlc, write_evidence
 
 # property -> list of (module, cfg, workers, timeout_quick, timeout_thorough) exhaustive design-level models
@@ -16,7 +17,7 @@ _IX_T = _IX + [("Indexer.tla", "Indexer_c.cfg", 8, 1800, 1800), ("Indexer.tla", 
 LEVEL_A = {"C12": _IX, "C13": _IX, "C14": _IX}
 LEVEL_A_THOROUGH = {"C12": _IX_T, "C13": _IX_T, "C14": _IX_T}
 
-LEVELS = {"C26": "model_checking", "C29": "model_checking", "C20": "model_checking", "C12": "model_checking", "C13": "fault_enumeration", "C14": "model_checking"}
+LEVELS = {"C36": "model_checking", "C26": "model_checking", "C29": "model_checking", "C20": "model_checking", "C12": "model_checking", "C13": "fault_enumeration", "C14": "model_checking"}
 
 ASSUME_PROTO = [
     "content equality is judged on a digest of every table row except WRITE_TRANSACTION_STARTING_BLOCK_COUNT_TO_TIMESTAMP "
@@ -68,6 +69,9 @@ def run(prop, tier, seed, t0):
         outcome, cov, wall = fn.run(prop, tier, seed)
         assumptions = ["the harness encodes big numbers as base-10^4 limbs and strings as code arrays (projection only)",
                        "TLC evaluates spec/OrdNumbers.tla with exact arithmetic (spec/BigNat.tla)"]
+    elif prop in simple.TABLE:
+        outcome, cov, wall = simple.run(prop, tier, seed)
+        assumptions = ["the harness builds the inputs and projects the outputs; TLC judges"]
     elif prop == "C20":
         outcome, cov, wall = send.run(prop, tier, seed)
         assumptions = ["all wallet scripts are taproot (the wallet only creates taproot descriptors); recipient is a taproot address",
@@ -77,7 +81,7 @@ def run(prop, tier, seed, t0):
         raise common.ToolError("no check registered for %s" % prop)
     states, distinct, runs = level_a(prop, tier)
     level = LEVELS.get(prop, "exploration")
-    if prop == "C20" or prop in fn.FAMILY:
+    if prop == "C20" or prop in fn.FAMILY or prop in simple.TABLE:
         pass
     elif runs:
         cov["states"] = distinct
